@@ -831,7 +831,9 @@ theorem frame_core (cw : String → Nat) (hsp : cw "20" = 1) (f : Frame) (t : Te
       = expected cw f.caps f.next ∧
     expected cw f.caps (renderRows cw f.caps f.refresh 0 f.next f.last { out := pre }).1 = expected cw f.caps f.next ∧
     (run cw t (X ++ (renderRows cw f.caps f.refresh 0 f.next f.last { out := pre }).2.out ++ Y)).linkParams
-      = lpRun (lpOf (renderRows cw f.caps f.refresh 0 f.next f.last { out := pre }).2.pen) Y := by
+      = lpRun (lpOf (renderRows cw f.caps f.refresh 0 f.next f.last { out := pre }).2.pen) Y ∧
+    (run cw t (X ++ (renderRows cw f.caps f.refresh 0 f.next f.last { out := pre }).2.out ++ Y)).rows = t.rows ∧
+    (run cw t (X ++ (renderRows cw f.caps f.refresh 0 f.next f.last { out := pre }).2.out ++ Y)).cols = t.cols := by
   obtain ⟨x1, x2, x3, x4, x5, x6, x7⟩ := run_preToks cw X hX t
   have hpt : ∀ k ∈ pre, PreTok k := by
     rcases hpre with h | ⟨s, h⟩ <;> subst h <;> simp [PreTok]
@@ -848,7 +850,7 @@ theorem frame_core (cw : String → Nat) (hsp : cw "20" = 1) (f : Frame) (t : Te
   rw [y4, x4] at p3
   rw [List.append_assoc, run_append, run_append]
   obtain ⟨z1, z2, z3, z4, z5⟩ := run_noPrint cw Y (run cw (run cw t X) res.2.out) (by rw [p2, p3]; exact hY)
-  refine ⟨by rw [z2, p4], by rw [z1, p1]; rfl, p8, by rw [z5, p7]⟩
+  refine ⟨by rw [z2, p4], by rw [z1, p1]; rfl, p8, by rw [z5, p7], by rw [z3, p2], by rw [z4, p3]⟩
 
 theorem showCursor_noPrint (R C : Nat) (c : CursorState)
     (h : (0 ≤ c.row ∧ c.row < R) ∧ (0 ≤ c.col ∧ c.col < C)) : ∀ k ∈ showCursorToks c, NoPrint R C k := by
@@ -966,5 +968,36 @@ theorem frame_shape (cw : String → Nat) (f : Frame) (R C : Nat)
         · rfl
       rw [hstep, hstep, hstep, hstep, hclose, hshow, hshow]
       split <;> simp [lpRun, lpStep]
+
+/-! ### Dimensions of what the application's screen means -/
+
+theorem expectedRow_length (cw : String → Nat) (caps : Caps) (k : Nat) (l : List Cell) :
+    (expectedRow cw caps k l).length = l.length := by
+  rw [← eRow_map_phi]; simp
+
+theorem expected_dims (cw : String → Nat) (caps : Caps) (C : Nat) :
+    ∀ (a b : Grid), expected cw caps a = expected cw caps b → (∀ r ∈ b, r.length = C) →
+      a.length = b.length ∧ ∀ r ∈ a, r.length = C := by
+  intro a
+  induction a with
+  | nil =>
+    intro b h _
+    cases b with
+    | nil => exact ⟨rfl, by simp⟩
+    | cons _ _ => simp [expected] at h
+  | cons x a ih =>
+    intro b h hb
+    cases b with
+    | nil => simp [expected] at h
+    | cons y b =>
+      simp only [expected, List.map_cons, List.cons.injEq] at h
+      obtain ⟨h1, h2⟩ := ih b h.2 (fun r hr => hb r (by simp [hr]))
+      refine ⟨by simp [h1], ?_⟩
+      intro r hr
+      rcases List.mem_cons.mp hr with rfl | hr
+      · have := congrArg List.length h.1
+        rw [expectedRow_length, expectedRow_length] at this
+        rw [this]; exact hb y (by simp)
+      · exact h2 r hr
 
 end VaxisModel.Lemmas.RenderDisplay
